@@ -97,6 +97,10 @@ func diagRxQueue(local, remote *net.TCPAddr) (rx int, found bool, err error) {
 			return 0, false, fmt.Errorf("short diag msg")
 		}
 		m := buf[16:]
+		// a socket the application has already closed (FIN_WAIT*, TIME_WAIT, CLOSING, LAST_ACK) reads nothing
+		if st := m[1]; st != 1 /* ESTABLISHED */ && st != 8 /* CLOSE_WAIT */ {
+			return 0, false, nil
+		}
 		return int(binary.LittleEndian.Uint32(m[56:])), true, nil
 	}
 	return 0, false, fmt.Errorf("unexpected netlink type %d", typ)
